@@ -283,6 +283,7 @@ func runC12(r *Rec) {
 			}
 		}
 	}
+	c12DirectAndRole(r)
 	c12UpgradeWindow(r)
 	c12YearWindow(r)
 	c12TokenCaps(r)
@@ -612,4 +613,51 @@ func c12TokenCaps(r *Rec) {
 	step("burn-100", burn(owner, 100))
 	step("cap-below-issued-again", upsert(owner, sdk.NewInt(1)))
 	r.Count(fmt.Sprintf("token-caps:round-trips=%d", n))
+}
+
+// c12DirectAndRole: an account that holds a permission BOTH directly and through a role, in every order of granting, and
+// loses one of the two again (the direct grant, the role, or the role's grant): the by-permission and by-role indexes the
+// gov keeper maintains next to the actor record must be exactly what an import of the exported actors rebuilds.
+func c12DirectAndRole(r *Rec) {
+	perm := govtypes.PermValue(govtypes.PermVoteSetNetworkPropertyProposal)
+	for v := 0; v < 6; v++ {
+		label := fmt.Sprintf("direct-and-role-%d", v)
+		r.Mark(label)
+		w := NewWorld(WorldOpts{NAcc: 5, NVal: 1})
+		k := w.app.CustomGovKeeper
+		br := w.Block(nil, BlockOpts{Mid: func(ctx sdk.Context) {
+			ra := k.CreateRole(ctx, "carrier", "d")
+			k.WhitelistRolePermission(ctx, ra, perm)
+			actor := func() govtypes.NetworkActor {
+				a, ok := k.GetNetworkActorByAddress(ctx, w.addrs[3])
+				if !ok {
+					a = govtypes.NewDefaultActor(w.addrs[3])
+					k.SaveNetworkActor(ctx, a)
+				}
+				return a
+			}
+			if v%2 == 0 {
+				k.AddWhitelistPermission(ctx, actor(), perm)
+				k.AssignRoleToAccount(ctx, w.addrs[3], ra)
+			} else {
+				k.AssignRoleToAccount(ctx, w.addrs[3], ra)
+				k.AddWhitelistPermission(ctx, actor(), perm)
+			}
+			switch v / 2 {
+			case 0:
+				k.RemoveWhitelistedPermission(ctx, actor(), perm) // the direct grant goes, the role stays
+			case 1:
+				k.UnassignRoleFromAccount(ctx, w.addrs[3], ra) // the role goes, the direct grant stays
+			default:
+				k.RemoveWhitelistedPermission(ctx, actor(), perm)
+				k.UnassignRoleFromAccount(ctx, w.addrs[3], ra) // both go
+			}
+		}})
+		if br.Panicked != nil {
+			r.Count("populate:panicked")
+			continue
+		}
+		w.ApplyUpdates(br.Updates)
+		c12RoundTrip(r, w, label)
+	}
 }
